@@ -464,6 +464,7 @@ def new_loop_run(coro, mini=False):
 
 # --------------------------------------------------------------------------- determinism (names depend on nonces and time)
 import datetime as _dt
+import time as _time
 import random as _random
 
 
@@ -510,6 +511,41 @@ class _DetDatetime(_dt.datetime):
     def true_utc(cls, tick):
         return _dt.datetime(2022, 1, 1) + _dt.timedelta(seconds=tick)
 
+    # conversions of clock readings (see _DetTime): naive results are local time in the same shifting zone
+    @classmethod
+    def fromtimestamp(cls, ts, tz=None):
+        utc = _dt.datetime(1970, 1, 1) + _dt.timedelta(seconds=ts)
+        if tz is not None:
+            return utc.replace(tzinfo=_dt.timezone.utc).astimezone(tz)
+        return utc + _dt.timedelta(hours=cls._offsets[int(ts) % 4])
+
+    @classmethod
+    def utcfromtimestamp(cls, ts):
+        return _dt.datetime(1970, 1, 1) + _dt.timedelta(seconds=ts)
+
+
+class _DetTime:
+    """`time` as seen by replicat.repository: time()/time_ns() read the same ticking clock as utcnow(); localtime() is the
+    shifting local zone; everything else is the real module."""
+    _EPOCH0 = 1640995200      # 2022-01-01T00:00:00Z
+
+    def time(self):
+        _DetDatetime._tick += 1
+        return float(self._EPOCH0 + _DetDatetime._tick)
+
+    def time_ns(self):
+        return int(self.time()) * 10 ** 9
+
+    def gmtime(self, secs=None):
+        return _time.gmtime(self.time() if secs is None else secs)
+
+    def localtime(self, secs=None):
+        secs = self.time() if secs is None else secs
+        return _time.gmtime(secs + 3600 * _DetDatetime._offsets[int(secs) % 4])
+
+    def __getattr__(self, name):
+        return getattr(_time, name)
+
 
 _DET = _DetOS()
 
@@ -520,5 +556,7 @@ def determinism(seed=0):
     import replicat.utils.adapters as A
     A.os = _DET
     R.datetime = _DetDatetime
+    if hasattr(R, 'time'):
+        R.time = _DetTime()
     _DET.reseed(seed)
     _DetDatetime._tick = seed % 1000 * 10
